@@ -192,6 +192,7 @@ type rec struct {
 	gens    int64
 	ycount  uint64
 	yseed   uint64
+	active  int64 // node bodies and critical sections in flight
 	mods    map[int][]int // run -> graphs the modifier was applied to
 }
 
@@ -221,6 +222,8 @@ func (h *rec) yield() {
 
 // cs is the body of every critical section.
 func (h *rec) cs(ctx context.Context, node, kc int, x []KV, s *St) []KV {
+	atomic.AddInt64(&h.active, 1)
+	defer atomic.AddInt64(&h.active, -1)
 	if s.Busy {
 		atomic.StoreInt32(&h.overlap, 1)
 	}
@@ -373,6 +376,8 @@ func (h *rec) nodeOpts(c *Case, g *GraphSpec, n NodeSpec) []compose.GraphAddNode
 func (h *rec) lambda(n NodeSpec) *compose.Lambda {
 	id, ps, delay := n.ID, n.PS, n.DelayUs
 	return compose.InvokableLambda(func(ctx context.Context, in M) (M, error) {
+		atomic.AddInt64(&h.active, 1)
+		defer atomic.AddInt64(&h.active, -1)
 		x := fromM(in)
 		if delay > 0 {
 			time.Sleep(time.Duration(delay) * time.Microsecond)
@@ -587,34 +592,39 @@ func (h *rec) oneRun(c *Case, r compose.Runnable[M, M], run int, resumes *[]Resu
 		opts = append(opts, compose.WithCheckPointID(fmt.Sprintf("cp%d", run)))
 	}
 	out, err := h.call(c, r, ctx, opts...)
-	if err != nil && c.Interrupt != nil {
-		if info, ok := compose.ExtractInterruptInfo(err); ok {
-			*intSeen = true
-			res := Resume{Run: run, Mods: []int{}}
-			var olds []*St
-			c.infoSnaps(info, 0, &res.Snaps, &olds)
-			res.Seq = atomic.AddInt64(&h.seq, 1)
-			if c.Interrupt.Modifier {
-				opts = append(opts, compose.WithStateModifier(func(ctx context.Context, path compose.NodePath, state any) error {
-					s, ok := state.(*St)
-					if !ok || s == nil {
-						return nil
-					}
-					s.Total += 100000
-					gi := c.pathGraph(pathOf(path))
-					h.mu.Lock()
-					h.mods[run] = append(h.mods[run], gi)
-					h.mu.Unlock()
-					return nil
-				}))
+	if c.Interrupt != nil && c.Interrupt.Modifier {
+		opts = append(opts, compose.WithStateModifier(func(ctx context.Context, path compose.NodePath, state any) error {
+			s, ok := state.(*St)
+			if !ok || s == nil {
+				return nil
 			}
-			out, err = h.call(c, r, ctx, opts...)
+			s.Total += 100000
+			gi := c.pathGraph(pathOf(path))
 			h.mu.Lock()
-			res.Mods = append(res.Mods, h.mods[run]...)
+			h.mods[run] = append(h.mods[run], gi)
 			h.mu.Unlock()
-			sort.Ints(res.Mods)
-			*resumes = append(*resumes, res)
+			return nil
+		}))
+	}
+	for round := 0; err != nil && c.Interrupt != nil && round < 8; round++ {
+		info, ok := compose.ExtractInterruptInfo(err)
+		if !ok {
+			break
 		}
+		*intSeen = true
+		res := Resume{Run: run, Mods: []int{}}
+		var olds []*St
+		c.infoSnaps(info, 0, &res.Snaps, &olds)
+		res.Seq = atomic.AddInt64(&h.seq, 1)
+		h.mu.Lock()
+		from := len(h.mods[run])
+		h.mu.Unlock()
+		out, err = h.call(c, r, ctx, opts...)
+		h.mu.Lock()
+		res.Mods = append(res.Mods, h.mods[run][from:]...)
+		h.mu.Unlock()
+		sort.Ints(res.Mods)
+		*resumes = append(*resumes, res)
 	}
 	if err != nil {
 		return RunOut{Run: run, Class: "err", Msg: err.Error()}
@@ -674,6 +684,24 @@ func (c *Case) execute() (o Obs, hang bool) {
 	case <-done:
 	case <-time.After(20 * time.Second):
 		return Obs{Results: []RunOut{{Class: "hang"}}}, true
+	}
+	// A failed run may return while sibling nodes are still running (eager mode returns on the
+	// first error): wait until nothing is in flight and the sequence number is stable.
+	failed := false
+	for _, rr := range results {
+		if rr.Class != "val" {
+			failed = true
+		}
+	}
+	if failed {
+		deadline := time.Now().Add(3 * time.Second)
+		for time.Now().Before(deadline) {
+			s0 := atomic.LoadInt64(&h.seq)
+			time.Sleep(15 * time.Millisecond)
+			if atomic.LoadInt64(&h.active) == 0 && atomic.LoadInt64(&h.seq) == s0 {
+				break
+			}
+		}
 	}
 	// everything has returned: read the recorder
 	h.mu.Lock()
@@ -992,6 +1020,9 @@ func (c *Case) oracle(o *Obs) (string, string) {
 		ptrKey[e.Obj] = key
 		keyPtr[key] = e.Obj
 		perObj[e.Obj] = append(perObj[e.Obj], e)
+	}
+	for ; ri < len(o.Resumes); ri++ {
+		epoch[o.Resumes[ri].Run]++
 	}
 	// order pre < body_j < post, and value flow pre -> node input -> ... -> post
 	for _, e := range o.Events {
